@@ -6,6 +6,7 @@
   two trees is the unfiltered comparison of the stripped trees.
 -/
 import XotModel.Lemmas.CompareRel
+import XotModel.Lemmas.CompareText
 
 namespace XotModel
 
@@ -187,5 +188,76 @@ theorem xpath_eq_advanced_discard (cmp : TextCmp) (a b : Tree) (va : a.validRoot
   rcases h with ⟨ea, eb⟩ | ⟨da, db⟩
   · exact xpath_elements_rel cmp a b va vb ea eb
   · exact xpath_documents_rel cmp a b va vb da db
+
+/-! ### Stripping any structurally valid tree gives a structurally valid tree -/
+
+mutual
+theorem strip_eq_discard_all : ∀ t : Tree, t.stripCommentsPis = discard (fun v => !v.isCommentOrPi) t
+  | .node v ks => by simp only [Tree.stripCommentsPis, discard, stripList_eq_discardList_all ks]
+theorem stripList_eq_discardList_all : ∀ ks : List Tree,
+    stripCommentsPisList ks = discardList (fun v => !v.isCommentOrPi) ks
+  | [] => rfl
+  | k :: ks => by
+    have hc : (k.value.isNormal && !(!k.value.isCommentOrPi)) = k.value.isCommentOrPi := by
+      cases h : k.value <;> simp [Value.isNormal, Value.category, Value.isCommentOrPi]
+    simp only [stripCommentsPisList, discardList, hc, strip_eq_discard_all k, stripList_eq_discardList_all ks]
+end
+
+theorem valid_discard_of_valid (g : Value → Bool) (t : Tree) : t.valid = true → (discard g t).valid = true := by
+  induction t using Tree.induct_mem with
+  | h v ks ih =>
+    intro hv
+    obtain ⟨ho, hn, hl, hk⟩ := valid_node hv
+    simp only [discard, Tree.valid, Bool.and_eq_true, Bool.or_eq_true, List.isEmpty_iff, validList_iff]
+    refine ⟨⟨⟨orderedKids_discardList g ks ho, ?_⟩, ?_⟩, ?_⟩
+    · simpa [attrNamesNodup, attrPairs_discardList] using hn
+    · rcases hl with hl | hl
+      · exact Or.inl hl
+      · subst hl; exact Or.inr rfl
+    · intro x hx
+      obtain ⟨k, hk', e⟩ := mem_discardList hx
+      rw [e]; exact ih k hk' (hk k hk')
+
+theorem valid_stripCommentsPis (t : Tree) (hv : t.valid = true) : t.stripCommentsPis.valid = true := by
+  rw [strip_eq_discard_all]; exact valid_discard_of_valid _ t hv
+
+/-! ### The hypothesis of the XPath theorems from the usual ones -/
+
+theorem noDocList_iff (ks : List Tree) : Tree.noInnerDocument.noDocList ks = true ↔
+    ∀ k ∈ ks, k.value.isDocument = false ∧ k.noInnerDocument = true := by
+  induction ks with
+  | nil => simp [Tree.noInnerDocument.noDocList]
+  | cons k ks ih => simp [Tree.noInnerDocument.noDocList, ih, and_assoc]
+
+theorem validFor_xpathKeep_of_valid (t : Tree) : t.valid = true → t.contentLeaves = true →
+    t.noInnerDocument = true → t.value.isDocument = false → t.validFor xpathKeep = true := by
+  induction t using Tree.induct_mem with
+  | h v ks ih =>
+    intro hv hl hd hnd
+    obtain ⟨ho, hn, hleaf, hk⟩ := valid_node hv
+    obtain ⟨hcl, hlk⟩ := contentLeaves_node hl
+    simp only [Tree.noInnerDocument, noDocList_iff] at hd
+    simp only [Tree.value] at hnd
+    simp only [Tree.validFor, Bool.and_eq_true, Bool.or_eq_true, List.isEmpty_iff, validForList_iff]
+    refine ⟨⟨⟨ho, hn⟩, ?_⟩, fun k hk' => ih k hk' (hk k hk') (hlk k hk') (hd k hk').2 (hd k hk').1⟩
+    cases v
+    case document => simp [Value.isDocument] at hnd
+    case element n => exact Or.inl (by simp [Value.isNormal, Value.category, xpathKeep, Value.isElement])
+    case text s => exact Or.inl (by simp [Value.isNormal, Value.category, xpathKeep, Value.isElement, Value.isText])
+    case comment s => exact Or.inr (hcl (Or.inr (Or.inl ⟨s, rfl⟩)))
+    case pi t d => exact Or.inr (hcl (Or.inr (Or.inr ⟨t, d, rfl⟩)))
+    case «attribute» n s => exact Or.inr (hleaf.resolve_left (by simp [Value.isNormal, Value.category]))
+    case «namespace» p n => exact Or.inr (hleaf.resolve_left (by simp [Value.isNormal, Value.category]))
+
+/-- Structurally valid, text / comment / PI nodes are leaves, no document node below the root:
+    the hypothesis `validRootFor xpathKeep` of the XPath theorems. -/
+theorem validRootFor_xpathKeep_of_valid (t : Tree) (hv : t.valid = true) (hl : t.contentLeaves = true)
+    (hd : t.noInnerDocument = true) : t.validRootFor xpathKeep = true := by
+  obtain ⟨v, ks⟩ := t
+  obtain ⟨ho, hn, _, hk⟩ := valid_node hv
+  obtain ⟨_, hlk⟩ := contentLeaves_node hl
+  simp only [Tree.noInnerDocument, noDocList_iff] at hd
+  simp only [Tree.validRootFor, Tree.kids, Bool.and_eq_true, List.all_eq_true]
+  exact ⟨⟨ho, hn⟩, fun k hk' => validFor_xpathKeep_of_valid k (hk k hk') (hlk k hk') (hd k hk').2 (hd k hk').1⟩
 
 end XotModel
